@@ -97,6 +97,7 @@ def _inv(spec, lc, k):
 
 
 def _emit_inv(eng, ctx, spec, lc, label, k):
+    lc.label = label
     clauses = _inv(spec, lc, k)
     _bundle_n[0] += 1
     hyps = list(ctx.pc) + list(eng.hyps_extra)     # evaluated after the clauses: boxing facts included
@@ -106,6 +107,7 @@ def _emit_inv(eng, ctx, spec, lc, label, k):
 
 
 def _assume_inv(eng, ctx, spec, lc):
+    lc.label = 'assume'
     for name, t in _inv(spec, lc, None).items():
         ctx.assume(t)
 
